@@ -75,6 +75,17 @@ pub fn cyclic_ws(rng: &mut Rng) -> WsSpec {
         spec.files.push(PyFile { rel: "plugs/conftest.py".into(), items: vec![Item::Plugins { modules: vec!["plug_a".into()], targets: vec![Some("plug_a.py".into())] }] });
         spec.files.push(PyFile { rel: "plugs/test_plugs.py".into(), items: vec![Item::Test(Tst { name: "test_p".into(), params: vec!["from_a".into(), "from_b".into()], ..Default::default() })] });
     }
+    // an in-workspace editable plugin whose entry module and a helper star-import each other (and the entry module
+    // itself): plugin status propagates along star imports, round and round unless each module is marked once
+    if rng.chance(400) {
+        let sp = super::ws::SITE;
+        spec.files.push(PyFile { rel: "plugsrc/cycplug/__init__.py".into(), items: vec![] });
+        spec.files.push(PyFile { rel: "plugsrc/cycplug/plugin.py".into(), items: vec![Item::Star { module: ".helper".into(), target: Some("plugsrc/cycplug/helper.py".into()) }, Item::Star { module: ".plugin".into(), target: Some("plugsrc/cycplug/plugin.py".into()) }, Item::Fixture(Fx { func: "cyc_plugin_fx".into(), ..Default::default() })] });
+        spec.files.push(PyFile { rel: "plugsrc/cycplug/helper.py".into(), items: vec![Item::Star { module: ".plugin".into(), target: Some("plugsrc/cycplug/plugin.py".into()) }, Item::Fixture(Fx { func: "cyc_helper_fx".into(), ..Default::default() })] });
+        spec.extra.push((format!("{}/cycplug-0.1.0.dist-info/direct_url.json", sp), "{\"url\": \"file://${ROOT}/plugsrc\", \"dir_info\": {\"editable\": true}}".to_string()));
+        spec.extra.push((format!("{}/cycplug-0.1.0.dist-info/entry_points.txt", sp), "[pytest11]\ncycplug = cycplug.plugin\n".to_string()));
+        spec.extra.push((format!("{}/__editable__.cycplug-0.1.0.pth", sp), "${ROOT}/plugsrc\n".to_string()));
+    }
     // arbitrarily deep directory chain
     if rng.chance(400) {
         let depth = rng.range(20, 60);
